@@ -167,9 +167,22 @@ fn cmd_strategy(profile: u8) -> BoxedStrategy<Vec<String>> {
     .boxed()
 }
 
-fn step_strategy(profile: u8, lossy: bool, ticks: bool) -> impl Strategy<Value = Step> {
+/// `tick_mode`: 0 no ticks; 1 sparse ticks of any length (1 ms .. 21 s); 2 dense short ticks, the
+/// shape of the TTL manager (every shard is told the time about every 100 ms, whether or not it
+/// holds a key with a TTL), so that a program contains many ticks before, between and after
+/// the writes that carry a TTL.
+fn step_strategy(profile: u8, lossy: bool, tick_mode: u8) -> impl Strategy<Value = Step> {
     let w_loss = if lossy { 2 } else { 0 };
-    let w_tick = if ticks { 2 } else { 0 };
+    let w_tick = match tick_mode {
+        0 => 0,
+        1 => 2,
+        _ => 9,
+    };
+    let tick_ms: BoxedStrategy<u32> = if tick_mode == 2 {
+        prop_oneof![4 => Just(100u32), 2 => Just(50u32), 3 => 1u32..1000, 2 => 1000u32..6000].boxed()
+    } else {
+        prop_oneof![3 => 1u32..3000, 2 => 3000u32..21000, 1 => Just(1000u32)].boxed()
+    };
     prop_oneof![
         12 => (0u8..8, cmd_strategy(profile)).prop_map(|(node, argv)| Step::Cmd { node, argv }),
         10 => any::<u16>().prop_map(|idx| Step::Deliver { idx }),
@@ -179,11 +192,7 @@ fn step_strategy(profile: u8, lossy: bool, ticks: bool) -> impl Strategy<Value =
         w_loss => any::<u16>().prop_map(|idx| Step::Drop { idx }),
         w_loss => (0u8..8, 0u8..8).prop_map(|(a, b)| Step::Partition { a, b }),
         w_loss => Just(Step::Heal),
-        w_tick => prop_oneof![
-            3 => 1u32..3000,
-            2 => 3000u32..21000,
-            1 => Just(1000u32),
-        ].prop_map(|ms| Step::Tick { ms }),
+        w_tick => tick_ms.prop_map(|ms| Step::Tick { ms }),
         // keeps the union non-degenerate when both optional classes are off
         1 => Just(Step::Deliver { idx: 65535 }),
     ]
@@ -192,9 +201,11 @@ fn step_strategy(profile: u8, lossy: bool, ticks: bool) -> impl Strategy<Value =
 fn case_strategy(thorough: bool) -> impl Strategy<Value = Case> {
     let max_nodes: u8 = if thorough { 5 } else { 4 };
     let max_steps = if thorough { 80 } else { 40 };
-    (2u8..=max_nodes, 0u8..3, any::<bool>(), any::<bool>(), any::<bool>()).prop_flat_map(
-        move |(nodes, profile, lossy, ticks, redeliver_lost)| {
-            proptest::collection::vec(step_strategy(profile, lossy, ticks), 4..max_steps)
+    // tick mode: none 50 %, sparse 25 %, dense 25 %
+    let tick_mode = prop_oneof![2 => Just(0u8), 1 => Just(1u8), 1 => Just(2u8)];
+    (2u8..=max_nodes, 0u8..3, any::<bool>(), tick_mode, any::<bool>()).prop_flat_map(
+        move |(nodes, profile, lossy, tick_mode, redeliver_lost)| {
+            proptest::collection::vec(step_strategy(profile, lossy, tick_mode), 4..max_steps)
                 .prop_map(move |steps| Case { nodes, steps, redeliver_lost })
         },
     )
@@ -408,6 +419,9 @@ struct Net<'a, 'b> {
     tolerated_at: BTreeSet<(String, String, &'static str)>,
     /// presence per node at the last verdict (D only judges what eviction changed)
     last_presence: BTreeMap<String, Vec<bool>>,
+    /// per node: a tick happened while the node served no key with a TTL (the TTL manager
+    /// ticks every shard, also the ones that have nothing to evict)
+    idle_tick_seen: Vec<bool>,
 }
 
 impl<'a, 'b> Net<'a, 'b> {
@@ -736,13 +750,94 @@ impl<'a, 'b> Net<'a, 'b> {
                 }
             }
             Step::Tick { ms } => {
-                self.now_ms += *ms as u64;
-                self.time_advanced = true;
-                self.trace.push(format!("clock -> {} ms (evict_expired on every node)", self.now_ms));
-                for h in &self.nodes {
-                    h.evict_expired(VirtualTime::from_millis(self.now_ms)).await;
-                }
+                self.advance_clock(*ms as u64, "evict_expired on every node").await?;
                 self.ctx.label("tick");
+            }
+        }
+        Ok(())
+    }
+
+    /// PTTL of every key any command named so far, at every node (-2 absent, -1 no TTL).
+    async fn ttl_reads(&self) -> Result<Vec<BTreeMap<String, i64>>, String> {
+        let mut all = Vec::new();
+        for h in &self.nodes {
+            let mut m = BTreeMap::new();
+            for k in self.keys.keys() {
+                m.insert(k.clone(), run(h, &["PTTL", k]).await?.0.as_int().unwrap_or(i64::MIN));
+            }
+            all.push(m);
+        }
+        Ok(all)
+    }
+
+    /// One clock step of the cluster: the harness clock advances by `dt` ms and every node is
+    /// told the new time (`evict_expired(now)`, what the TTL manager does for every shard).
+    ///
+    /// Always-on invariant, independent of every tolerance: **time passes alike on every
+    /// replica**. Between the reads just before and just after the tick nothing but the tick
+    /// happens, so at every node and for every key: absent stays absent, a key without a TTL
+    /// stays (without a TTL), and a key served with `PTTL = p` is served with `p - dt` if
+    /// `p > dt` and is gone otherwise. The open expiry findings (KF-C06-04/-05) are about which
+    /// duration a write or a merge arms at a node; none of them explains a replica whose TTLs do
+    /// not count down with the clock every replica was told. If one replica's did not, two
+    /// replicas that hold the same value with the same remaining TTL, every update delivered,
+    /// would stop answering EXISTS/GET/PTTL alike at the next tick.
+    async fn advance_clock(&mut self, dt: u64, what: &str) -> Result<(), String> {
+        let pre = self.ttl_reads().await?;
+        let was = self.now_ms;
+        self.now_ms += dt;
+        self.time_advanced = true;
+        self.trace.push(format!("clock -> {} ms ({})", self.now_ms, what));
+        for h in &self.nodes {
+            h.evict_expired(VirtualTime::from_millis(self.now_ms)).await;
+        }
+        let post = self.ttl_reads().await?;
+        for i in 0..self.nodes.len() {
+            let armed = pre[i].values().any(|p| *p >= 0);
+            if armed {
+                self.ctx.label("ttl:countdown_checked");
+                if pre[i].values().any(|p| *p >= 0 && (*p as u64) > dt) {
+                    self.ctx.label("ttl:key_with_ttl_survives_tick");
+                    if self.idle_tick_seen[i] {
+                        // the node went through a tick with nothing to evict, holds a TTL now
+                        // and the key must still be there after this tick
+                        self.ctx.label("ttl:key_with_ttl_survives_tick_at_node_with_earlier_idle_tick");
+                    }
+                }
+            } else {
+                self.idle_tick_seen[i] = true;
+                self.ctx.label("ttl:tick_at_node_without_ttl_key");
+            }
+            for (k, p) in &pre[i] {
+                let want = match *p {
+                    p if p >= 0 && (p as u64) > dt => p - dt as i64,
+                    p if p >= 0 => -2,
+                    p => p,
+                };
+                if *p >= 0 && want == -2 {
+                    self.ctx.label("ttl:expired_at_tick");
+                }
+                let got = post[i][k];
+                if got != want {
+                    let show = |v: i64| match v {
+                        -2 => "absent (PTTL -2)".to_string(),
+                        -1 => "present without a TTL (PTTL -1)".to_string(),
+                        v => format!("present with PTTL {}", v),
+                    };
+                    return Err(self.fail(format!(
+                        "clock {} -> {} ms: n{} served {} {} just before every node was told the new time and {} just after; \
+                         {} ms passed and nothing else happened, so it must be {}: this replica's TTLs do not follow the clock all replicas are given, \
+                         and replicas that hold the same value with the same TTL stop answering reads alike",
+                        was,
+                        self.now_ms,
+                        i + 1,
+                        k,
+                        show(*p),
+                        show(got),
+                        dt,
+                        show(want)
+                    )));
+                }
             }
         }
         Ok(())
@@ -964,12 +1059,7 @@ impl<'a, 'b> Net<'a, 'b> {
 
     /// D: after eviction beyond every TTL used, a key is absent everywhere or present everywhere.
     async fn final_eviction(&mut self) -> Result<(), String> {
-        self.now_ms += self.max_ttl_ms + 1;
-        self.time_advanced = true;
-        self.trace.push(format!("clock -> {} ms (beyond every TTL used; evict_expired on every node)", self.now_ms));
-        for h in &self.nodes {
-            h.evict_expired(VirtualTime::from_millis(self.now_ms)).await;
-        }
+        self.advance_clock(self.max_ttl_ms + 1, "beyond every TTL used; evict_expired on every node").await?;
         let keys: Vec<String> = self.keys.keys().cloned().collect();
         for key in keys {
             let mut ex = Vec::new();
@@ -1016,6 +1106,7 @@ fn check_case(case: &Case, ctx: &mut CaseCtx<'_>) -> Result<(), String> {
             faulty_delivery: false,
             tolerated_at: BTreeSet::new(),
             last_presence: BTreeMap::new(),
+            idle_tick_seen: vec![false; n],
         };
         net.ctx.label(&format!("nodes:{}", n));
         for s in &case.steps {
@@ -1459,17 +1550,17 @@ fn main() {
         Level::Exploration,
         "actor_programs: 2-4 (thorough 5) production ReplicatedShardActors, programs of 4..40 (thorough 80) steps: client commands \
          (SET plain/NX/XX/EX/PX/GET/KEEPTTL/invalid expiry, DEL single/multi, INCR/DECR/INCRBY/DECRBY, APPEND, GETSET, HSET/HDEL/HINCRBY on 4 shared keys, \
-         so type flips happen) at chosen nodes, interleaved with deliver-any/duplicate/drop/partition/heal on the multiset of in-flight deltas and clock ticks; \
+         so type flips happen) at chosen nodes, interleaved with deliver-any/duplicate/drop/partition/heal on the multiset of in-flight deltas and clock ticks (none / sparse / dense 50-100 ms); \
          sim_programs: MultiNodeSimulation with SET/DEL programs, partitions, loss, healing. non-trivial = at least two nodes wrote the same key and at least one \
          delivery was reordered, duplicated, dropped or cut (actor tier) / a partition or loss was active (simulator tier); distinct by whole case",
         &args,
     );
-    s.assume("every node's executor clock is the one the harness sets through evict_expired(now) on all nodes at each tick (the actor has no other clock source); all nodes therefore share one clock");
+    s.assume("every node is told the time by the harness through evict_expired(now) on all nodes at each tick (the actor has no other clock source), so all nodes are given one clock; that every node's TTLs then actually count down with that clock is not assumed but checked at every tick (PTTL/presence of every key at every node just before vs just after)");
     s.assume("quiescence: Q1 = every delta returned by execute / left in drain_pending_deltas has been applied at every other node at least once (only judged when no delta was lost for good); Q2 = additionally two all-pairs rounds of full-state exchange built from get_snapshot()");
     s.assume("served = replication state is judged through vcore::proj::client_view of the node's own get_snapshot() entry; expiry is compared as 'has a TTL' <-> expiry_ms is Some (the state holds a duration, not a deadline)");
     s.describe_check(
         "actor_programs",
-        "oracles at Q1/Q2: A all nodes give identical TYPE/GET/HGETALL(multiset)/EXISTS/PTTL; B each equals the node's own client_view; C plain SET/DEL keys hold the write with the greatest observed stamp; D after eviction beyond every TTL, EXISTS agrees",
+        "oracles at Q1/Q2: A all nodes give identical TYPE/GET/HGETALL(multiset)/EXISTS/PTTL; B each equals the node's own client_view; C plain SET/DEL keys hold the write with the greatest observed stamp; D after eviction beyond every TTL, EXISTS agrees. Always on, no tolerance: fresh delta stamps, no CRDT-kind tie under one stamp, and at every clock tick (sparse or TTL-manager-like dense ticks, also at nodes that hold nothing to evict) every node's PTTL/presence of every key moves by exactly the time that passed",
     );
     s.describe_check(
         "sim_programs",
